@@ -224,7 +224,7 @@ def run_dbos_timer(env: Env, out: Outcome, n_cases: int) -> None:
             n_att = sum(1 for e in ev if e["ev"] == "attempt")
             out.count("timer: release attempts", n_att)
             out.count("timer: attempts that won the CAS", sum(1 for e in ev if e["ev"] == "attempt" and e["win"]))
-            out.count("timer: timer tasks cancelled while asleep", sum(s.count("cancelled") for s in o["impl"][-1:]))
+            out.count("timer: timer tasks cancelled while asleep", sum(f["facts"]["states"].count("cancelled") for f in (o.get("final") or {}).get("runs", [])))
             out.count("timer: sleeps never observed (task cancelled before its first step)", o.get("unobserved_sleeps", 0))
             if any(e["ev"] in ("tick", "idle", "resume") and any(a["ev"] == "attempt" and a["run"] == e["run"] and a["t"] <= e["t"] < a["t"] + a["lat"] for a in ev) for e in ev):
                 out.count("timer: tick / announcement / resume while a release of the run was inside begin_release")
